@@ -250,6 +250,10 @@ def check(pid, tier, seed, replay=None):
     os.makedirs(os.path.join(VERIF, "evidence"), exist_ok=True)
     os.makedirs(os.path.join(VERIF, "replays"), exist_ok=True)
     mod = importlib.import_module("harness.props." + pid.lower())
+    if not replay:
+        for fn in os.listdir(os.path.join(VERIF, "replays")):
+            if fn.startswith(pid + "-") and fn.endswith(".json"):
+                os.remove(os.path.join(VERIF, "replays", fn))
     procs = int(os.environ.get("VERIF_PROCS", "0")) or (os.cpu_count() or 4)
     rng = random.Random(seed)
 
